@@ -237,9 +237,12 @@ func init() {
 		"math.Float64bits":     ident,
 		"math.Float64frombits": ident,
 		// ---- runtime odds and ends
-		"runtime.KeepAlive":     noop,
-		"internal/abi.NoEscape": ident,
-		"internal/abi.Escape":   ident,
+		"runtime.KeepAlive":          noop,
+		"internal/abi.NoEscape":      ident,
+		"internal/stringslite.Clone": ident,
+		"strings.Clone":              ident,
+		"strconv.cloneString":        ident,
+		"internal/abi.Escape":        ident,
 		"runtime.Gosched": func(w *Worker, fr *frame, a []Value) (Value, bool) {
 			if len(w.gs) > 1 {
 				w.idleYields = 0
